@@ -201,6 +201,7 @@ def feature_corpus():
     elements and fields, casts, every kind of global): judged VM == interpreter (C04) and, where the specification covers
     the feature, against the specification (C01)."""
     return [
+ "fn main() { println([1.0, 2.5, -3.0].to_json()); let o = new { a: 2.0, b: 100.0, c: [0.0] }; println(o.to_json()); println(o.to_json_indent()); }",
  # every evaluation of a literal creates a fresh container (loop body, function called twice, recursion)
  "fn mk(k: str) -> { ? } { let o = new { ? }; o.set(k, 1); o } fn main() { let a = mk(\"a\"); let b = mk(\"b\"); println(a.keys(), b.keys(), a == b); for i in 0..3 { let o = new { ? }; o.set(i.to_string(), i); println(o.keys(), o.get(\"0\")); } }",
  "fn mk(n: int) -> [int] { let l = [0]; l.push(n); l } fn mo(n: int) -> { a: int, l: [int] } { let o = new { a: 0, l: [0] }; o.a += n; o.l.push(n); o } fn main() { let a = mk(1); let b = mk(2); println(a, b); let p = mo(1); let q = mo(2); println(p, q, p == q); for i in 0..3 { let l = [[i]]; l[0].push(9); println(l); } }",
